@@ -9,10 +9,11 @@ sys.path.insert(0, HERE)
 VERIF = os.path.dirname(HERE)
 
 props = [json.loads(l)['id'] for l in open(os.path.join(VERIF, 'properties.jsonl'))]
+ready = set(open(os.path.join(HERE, 'ready.txt')).read().split())
 checks, na = [], []
 for pid in props:
     path = os.path.join(HERE, 'props', f'{pid}.py')
-    if not os.path.exists(path):
+    if pid not in ready or not os.path.exists(path):
         na.append({'property_id': pid, 'reason': 'check not built yet (planned in DESIGN.md section 4); not claimed'})
         continue
     src = open(path).read()
